@@ -474,6 +474,8 @@ class Explorer(object):
                     return base[lo:hi]
                 raise Undecided('slice of {!r}'.format(base), e)
             idx = self.expr(e.slice, env)
+            if getattr(self.port, 'name', 'py') == 'js' and isinstance(base, (list, tuple, str)) and isinstance(idx, str) and idx.isdigit() and (idx == '0' or not idx.startswith('0')):
+                idx = int(idx)       # array[ "3" ] is array[3]
             if isinstance(base, (list, tuple, str)) and isinstance(idx, int):
                 if -len(base) <= idx < len(base):
                     return base[idx]
@@ -644,6 +646,13 @@ class Explorer(object):
                 return {ast.Lt: a < b, ast.LtE: a <= b, ast.Gt: a > b, ast.GtE: a >= b}[type(op)]       # lexicographic, as Python compares sequences
             except TypeError:
                 raise Raised(Abs('TypeError'), node)
+        if getattr(self.port, 'name', 'py') == 'js' and ((isinstance(a, str) and isinstance(b, (int, float)) and not isinstance(b, bool)) or (isinstance(b, str) and isinstance(a, (int, float)) and not isinstance(a, bool))):
+            # a relational operator between a numeric text and a number compares numbers
+            t_ = a if isinstance(a, str) else b
+            if t_.strip().lstrip('+-').replace('.', '', 1).isdigit():
+                v_ = float(t_) if '.' in t_ else int(t_)
+                a, b = (v_, b) if isinstance(a, str) else (a, v_)
+                return {ast.Lt: a < b, ast.LtE: a <= b, ast.Gt: a > b, ast.GtE: a >= b}[type(op)]
         if getattr(self.port, 'name', 'py') == 'js' and isinstance(a, list) and isinstance(b, list) and all(isinstance(x, (str, int)) and not isinstance(x, bool) for x in a + b):
             # relational operators convert arrays to their comma-joined text
             a, b = ','.join(str(x) for x in a), ','.join(str(x) for x in b)
